@@ -407,6 +407,8 @@ structure Config where
   Aggregation : List AggregationCfg
   BlackList : List Bytes
   Rewriter : List RewriterCfg
+/-- imperatives.go `errFmtAddAgg` -/
+def errFmtAddAgg : Err := some "addAgg <avg|count|delta|derive|last|max|min|stdev|sum> [prefix/sub/regex=,..] <fmt> <interval> <wait> [cache=true/false] [dropRaw=true/false]"
 /-- imperatives.go `errFmtAddRoute` -/
 def errFmtAddRoute : Err := some "addRoute <type> <key> [prefix/sub/regex=,..]  <dest>  [<dest>[...]]"
 
